@@ -23,7 +23,7 @@ RULE = ("(configuration, sample x, cut k, replacement tail y) tuples, stratified
         "the original tail; distinct = hash of the tuple")
 REQUIRED = [f"prefix_checked:{nn.label({'test': a, 'estim': b, 'bet': c})}" for a, b, c in nn.COMBOS] + \
            ["truncate_checked", "estim_checked", "bet_checked", "k_is_1", "k_is_n_minus_1", "truncation_lowered_kth"] + \
-           [f"increment_affine_checked:{t}" for t in sorted({c[0] for c in nn.COMBOS})] + ["long_samples", "configurations_whose_bound_is_not_a_dyadic_rational"]
+           [f"increment_affine_checked:{t}" for t in sorted({c[0] for c in nn.COMBOS})] + ["long_samples", "configurations_whose_bound_is_not_a_dyadic_rational", "populations_a_million_times_the_sample"]
 ASSUMPTIONS = ["numpy's cumulative kernels are sequential, so prefix-stability is checked with bit equality",
                "both samples continue beyond the cut (the property's own hypothesis)"]
 N_CASES = {"quick": 160000, "thorough": 1500000}
@@ -65,6 +65,14 @@ def run_shard(spec, rec):
         n = len(x)
         kmode = i // len(nn.COMBOS) % 3
         k = 1 if kmode == 0 else (n - 1 if kmode == 1 else rng.randint(1, n - 1))
+        if math.isfinite(N) and n >= 4 and rng.random() < 0.08:
+            # a population about a million times the sample (a state-wide contest, a first handful of cards): the null mean
+            # barely moves, but it is a function of the draws so far - not of how many draws the caller happens to pass
+            cfg["N"] = 10 ** 6 * rng.randint(2, n - 1)
+            cfg.pop("N_warm", None)
+            cap = n
+            k = rng.randint(1, n - 1)
+            rec.count("populations_a_million_times_the_sample")
         tl = rng.randint(1, cap - k)
         tk = rng.choice(("zeros", "us", "random", "random"))
         u = cfg["u"]
